@@ -85,7 +85,22 @@ def _install() -> None:
 
 
 LOC = re.compile(r"^(?P<file>[^:\n]+?)(?::(?P<line>\d+))?(?::\d+)*: (?P<sev>error|note|warning): (?P<msg>.*)$")
-ONCE_NOTES = ("See https://mypy.readthedocs.io/en/stable/running_mypy.html#missing-imports",)
+_once_notes: set[str] | None = None
+
+
+def once_notes() -> set[str]:
+    """Texts of the once-per-run hint notes, read from the live code (module_not_found emits every note of
+    ModuleNotFoundReason.error_message_templates with only_once=True)."""
+    global _once_notes
+    if _once_notes is None:
+        from mypy.modulefinder import ModuleNotFoundReason
+        _once_notes = set()
+        for reason in ModuleNotFoundReason:
+            for daemon in (False, True):
+                for n in reason.error_message_templates(daemon)[1]:
+                    if "{" not in n:
+                        _once_notes.add(n.strip())
+    return _once_notes
 
 
 def _norm_diags(text: str, cwd: str) -> tuple[list[str], int]:
@@ -100,7 +115,7 @@ def _norm_diags(text: str, cwd: str) -> tuple[list[str], int]:
         if not m:
             out.append(ln.replace(_case_root + os.sep, ""))
             continue
-        if m.group("sev") == "note" and m.group("msg").strip() in ONCE_NOTES:
+        if m.group("sev") == "note" and m.group("msg").strip() in once_notes():
             dropped += 1
             continue
         f = m.group("file")
@@ -132,6 +147,17 @@ def classify_outcome(status: Any, text: str) -> str:
         m = re.search(r"(error|mypy): (.*)", text)
         return "other-stop:" + re.sub(r'"[^"]*"|\'[^\']*\'|\d+', "_", (m.group(2) if m else text.strip()[:60]))[:70]
     return f"status:{status}"
+
+
+def _discoverable(top: str) -> list[str]:
+    """Python files below `top`, skipping what recursive discovery skips by documented rule."""
+    res: list[str] = []
+    for dp, dns, fns in os.walk(top):
+        dns[:] = sorted(d for d in dns if d not in ("__pycache__", "site-packages", "node_modules") and not d.startswith("."))
+        for fn in sorted(fns):
+            if fn.endswith((".py", ".pyi")) and not fn.startswith("."):
+                res.append(os.path.join(dp, fn))
+    return res
 
 
 def _run(style: str, args: list[str], cwd: str, env: dict[str, str], flags: list[str], cache_base: str,
@@ -251,6 +277,15 @@ def run_case(layout: list[str], ns: str, cwd_kind: str, mp_kind: str, mp_via: st
                 orders.append(list(given))
             for k, o in enumerate(orders):
                 go(f"files#{k}", o)
+        # every python file below the target listed individually (skipping what recursive discovery skips by
+        # documented rule: __pycache__, site-packages, node_modules, dot directories)
+        tdir = os.path.normpath(os.path.join(cwd, target))
+        allf = [os.path.relpath(f, cwd) for f in _discoverable(tdir)]
+        out["all_files"] = allf
+        if allf and sorted(os.path.normpath(x) for x in allf) != sorted(os.path.normpath(x) for x in given):
+            go("allfiles", allf)
+        elif allf:
+            out["allfiles_same_as_expansion"] = True
         # -p PKG for packages directly below a search base
         pk: list[tuple[str, str, Any]] = []  # (package name, directory path as given on the command line)
         bases = [cwd] + ([mp_dir] if mp_dir else [])
@@ -266,7 +301,7 @@ def run_case(layout: list[str], ns: str, cwd_kind: str, mp_kind: str, mp_via: st
                     continue
                 if not (os.path.abspath(d) == os.path.abspath(root) or _under(d) and os.path.abspath(d).startswith(os.path.abspath(root) + os.sep)):
                     continue
-                if not any(fn.endswith((".py", ".pyi")) for _, _, fns in os.walk(d) for fn in fns):
+                if not _discoverable(d):
                     continue
                 seen_p.add(nm)
                 pk.append((nm, os.path.relpath(d, cwd), _rel(b)))
@@ -281,7 +316,8 @@ def run_case(layout: list[str], ns: str, cwd_kind: str, mp_kind: str, mp_via: st
         if r0["outcome"] == "ok":
             rng2 = random.Random(order_seed + "m")
             cands = [s for s in srcs if s["given"] and not s["isdir"] and s["base_dir"] is not None
-                     and os.path.normpath(os.path.join(_case_root, s["base_dir"])) in base_set and c18_gen.valid_modname(s["module"])]
+                     and os.path.normpath(os.path.join(_case_root, s["base_dir"])) in base_set and c18_gen.valid_modname(s["module"])
+                     and s["module"] != "__main__"]
             rng2.shuffle(cands)
             for s in cands[:1]:
                 go(f"-m:{s['module']}", ["-m", s["module"]])
